@@ -84,9 +84,13 @@ func nilness(v ssa.Value, at *ssa.BasicBlock, depth int, extra ...Cond) int {
 	case *ssa.MakeInterface, *ssa.Alloc, *ssa.MakeMap, *ssa.MakeSlice, *ssa.MakeChan, *ssa.MakeClosure, *ssa.FieldAddr, *ssa.IndexAddr, *ssa.Function, *ssa.Global:
 		return 1
 	case *ssa.ChangeInterface:
-		return nilness(x.X, at, depth+1)
+		if n := nilness(x.X, at, depth+1, extra...); n != 0 {
+			return n
+		}
 	case *ssa.ChangeType:
-		return nilness(x.X, at, depth+1)
+		if n := nilness(x.X, at, depth+1, extra...); n != 0 {
+			return n
+		}
 	case *ssa.Call:
 		if f := x.Call.StaticCallee(); f != nil && f.Signature.Results().Len() == 1 && NonNilResult(f, 0) {
 			return 1
@@ -119,12 +123,18 @@ func nilness(v ssa.Value, at *ssa.BasicBlock, depth int, extra ...Cond) int {
 	}
 	if at != nil {
 		for _, cd := range append(append([]Cond{}, extra...), DomConds(at)...) {
-			if tv, neq, ok := nilTest(cd.V); ok && tv == v {
+			if tv, neq, ok := nilTest(cd.V); ok && (tv == v || SameValue(tv, v)) {
 				// cond is (v != nil) when neq, (v == nil) otherwise
 				if cd.Truth == neq {
 					return 1
 				}
 				return -1
+			}
+			// `x, ok := v.(T)` with ok true: a nil interface holds no type
+			if ex, isEx := cd.V.(*ssa.Extract); isEx && ex.Index == 1 && cd.Truth {
+				if ta, isTA := ex.Tuple.(*ssa.TypeAssert); isTA && ta.CommaOk && (ta.X == v || SameValue(ta.X, v)) {
+					return 1
+				}
 			}
 		}
 	}
